@@ -51,7 +51,7 @@ def cases(ctx):
         sc, ec = gen.cfg(rng)
         extra = np.array([float(rng.uniform(-2, 0)), float(rng.uniform(1, 3)), float(rng.uniform(0, 1))])
         yield {"pos": pos, "neg": neg, "ep": ep, "en": en, "sc": sc, "ec": ec, "kind": kind,
-               "targets": np.concatenate([EXTREME, extra]), "form": str(rng.choice(["array", "array", "scalar", "list", "2d"])),
+               "targets": np.concatenate([EXTREME, extra]), "form": str(rng.choice(["array", "array", "scalar", "list", "2d", "pyint", "intarray", "0d"])),
                "via": str(rng.choice(derive.VIAS)), "_seed": int(rng.integers(1 << 31))}
 
 
@@ -96,6 +96,14 @@ def execute(ctx, case):
             if form == "scalar":
                 for r in tg[:6].tolist():
                     fn(r, method=method)
+            elif form == "pyint":  # targets given as Python ints
+                for r in (0, 1, -1, 2):
+                    fn(r, method=method)
+            elif form == "intarray":
+                fn(np.array([0, 1, 1, 0, 2, -3]), method=method)
+            elif form == "0d":
+                for r in tg[:5].tolist():
+                    fn(np.asarray(r), method=method)
             elif form == "list":
                 fn(tg.tolist(), method=method)
             elif form == "2d":
